@@ -148,9 +148,9 @@ type caRecord struct {
 type fakeCA struct {
 	mu     sync.Mutex
 	recs   []caRecord
-	next   caOutcome               // outcome of the next call (sequential scripts)
+	next   caOutcome                // outcome of the next call (sequential scripts)
 	script func(call int) caOutcome // overrides next when set (concurrent runs)
-	delay  time.Duration           // slow CA
+	delay  time.Duration            // slow CA
 	last   caOutcome
 }
 
@@ -302,7 +302,15 @@ func newSUTWith(ratio, jitter float64, ca *fakeCA, client security.Client) *sut 
 	sc, err := nacache.NewSecretManagerClient(client, opts)
 	must(err)
 	nacache.VerifSetQueue(sc, s.q)
-	sc.RegisterSecretHandler(func(name string) {
+	s.sc = sc
+	sc.RegisterSecretHandler(s.record)
+	return s
+}
+
+// record is the recording secret handler.
+func (s *sut) record(name string) {
+	sc := s.sc
+	{
 		s.emu.Lock()
 		defer s.emu.Unlock()
 		switch name {
@@ -320,9 +328,7 @@ func newSUTWith(ratio, jitter float64, ca *fakeCA, client security.Client) *sut 
 		default:
 			s.ev = append(s.ev, '?')
 		}
-	})
-	s.sc = sc
-	return s
+	}
 }
 
 func (s *sut) close() {
